@@ -70,6 +70,7 @@ fn main() {
         "mes-cases" => mes::run_mes(&args),
         "cost-table" => cost::run_cost(&args),
         "elf-load" => elfgen::run_elf_load(&args),
+        "example-run" => runloop::run_example_run(&args),
         "run-program" => runloop::run_run_program(&args),
         "sock-replay" => runloop::run_sock_replay(&args),
         "tcp-frame" => runloop::run_tcp_frame(&args),
